@@ -548,6 +548,20 @@ pub fn check_vtype(ctx: &Ctx, kind: Kind, out: &mut Outcome, q: u32, t: u32) {
     finish(ctx, "", acc, found, out, "vtype", &exec, &shrink);
 }
 
+/// C08: the victim rule around the quota at several scales
+pub fn check_twoq_victim_grid(ctx: &Ctx, out: &mut Outcome) {
+    let (reached, tried, bad) = crate::big::twoq_victim_grid(ctx.tier == Tier::Thorough);
+    out.coverage.insert("twoq_victim_grid_cases_reached".into(), json!(reached));
+    out.coverage.insert("twoq_victim_grid_cases_attempted".into(), json!(tried));
+    if let Some(msg) = bad {
+        let v = Violation { prop: "C08", step: 0, msg, sig: "twoq/-/victim-grid".into() };
+        if ctx.known.matches(&ctx.id, &v.sig).is_none() {
+            let path = write_replay(&ctx.replay_dir(), &ctx.id, "twoqgrid", json!({"grid": "recent_len - quota in -2..=3, sizes 2 .. 66 000"}), &v);
+            out.violations.push((path, v.msg));
+        }
+    }
+}
+
 /// C09: the adaptation formula over a grid of ghost-list lengths
 pub fn check_arc_grid(ctx: &Ctx, out: &mut Outcome) {
     let (reached, tried, bad) = crate::big::arc_adaptation_grid(ctx.tier == Tier::Thorough, ctx.workers);
@@ -1247,9 +1261,10 @@ pub fn check_2q_quota_grid_for(ctx: &Ctx, out: &mut Outcome, prop_id: &'static s
     let mut bad: Option<String> = None;
     let r = std::panic::catch_unwind(std::panic::AssertUnwindSafe(|| {
         // the convenience constructors: the ratio they do not take is the crate's exported default
-        for size in (1usize..=128).chain([1000, 4096, 4097, 65_537, 1_000_003]) {
+        for size in (1usize..=128).chain([1000, 4096, 4097, 65_537, 1_000_003, (1 << 20) + 1, (1 << 21) + 7]) {
             let fl = |r: f64| (size as f64 * r).floor() as usize;
-            let ratios: Vec<f64> = (0..=20).map(|k| k as f64 / 20.0).chain([1.0 / 3.0, 0.29, 0.57, 0.58]).collect();
+            // (the index of every list is pre-allocated: the largest sizes get a few ratios only)
+            let ratios: Vec<f64> = if size > 200_000 { vec![0.25, 1.0] } else { (0..=20).map(|k| k as f64 / 20.0).chain([1.0 / 3.0, 0.29, 0.57, 0.58]).collect() };
             let mut see = |how: String, c: Result<TwoQueueCache<u64, u64>, caches::lru::CacheError>, q: usize, g: usize| {
                 n_checked += 1;
                 match c {
